@@ -2,7 +2,7 @@
 # Runs checks against a seeded change without touching /repo or /verif's evidence:
 #   tools/mutant_eval.sh <slot> <patch.diff|-> <tier> <ID> [<ID> ...]     (env SEEDS="1 2", default "1")
 # A persistent scratch worktree /var/tmp/mev/<slot>/wt (detached at /repo's HEAD, with /repo's uncommitted
-# state NOT copied) gets the patch applied, a private copy of /verif at /var/tmp/mev/<slot>/root runs the
+# state NOT copied) gets the patch applied, a private copy of /verif's committed HEAD at /var/tmp/mev/<slot>/root runs the
 # checks with VERIF_REPO pointing at the worktree, then the patch is reverted. "-" as patch = unchanged tree.
 # Equivalent to `git -C /repo apply`, run, `git -C /repo checkout -- .`, but safe while other jobs build
 # against /repo. Remove /var/tmp/mev/<slot> when the campaign is over (tools/mutant_eval.sh <slot> --clean).
@@ -19,7 +19,11 @@ HEAD=$(git -C /repo rev-parse HEAD)
 if [ ! -d "$B/wt" ]; then git -C /repo worktree add --detach "$B/wt" "$HEAD" >/dev/null 2>&1 || exit 2; fi
 git -C "$B/wt" checkout -q --detach "$HEAD" && git -C "$B/wt" checkout -q -- . && git -C "$B/wt" clean -fdq
 mkdir -p "$B/root"
-rsync -a --delete --exclude .git --exclude /bin --exclude /evidence --exclude /replay --exclude /seeded /verif/ "$B/root/"
+# the COMMITTED state of /verif (an edit in progress in the working tree must not break a running campaign)
+rm -rf "$B/root.new"; mkdir -p "$B/root.new"
+git -C /verif archive HEAD | tar -x -C "$B/root.new" --exclude=evidence --exclude=replay --exclude=seeded
+rsync -a --delete --exclude /bin --exclude /evidence --exclude /replay "$B/root.new/" "$B/root/"
+rm -rf "$B/root.new"
 mkdir -p "$B/root/evidence" "$B/root/replay"
 if [ "$PATCH" != "-" ]; then
   git -C "$B/wt" apply "$PATCH" || { echo "EVAL-ERROR patch does not apply: $PATCH"; exit 2; }
